@@ -609,6 +609,38 @@ impl<'a> ScionScmpPacketView {
             .expect("scmp payload is not large enough for a SCMP header");
         view
     }
+
+    /// Returns `true` if the SCMP checksum verifies, i.e. if the one's-complement sum over the
+    /// SCION pseudo-header (address header, upper-layer length, protocol number) followed by the
+    /// SCMP message (including its checksum field) is `0xffff`.
+    #[inline]
+    pub fn verify_checksum(&self) -> bool {
+        use crate::{
+            core::layout::Layout as _,
+            header::layout::{AddressHeaderLayout, CommonHeaderLayout},
+            scion::checksum::ChecksumDigest,
+        };
+
+        let header = self.header();
+        let addr_start = CommonHeaderLayout::SIZE_BYTES;
+        let addr_len = AddressHeaderLayout::new(
+            header.src_addr_type().size(),
+            header.dst_addr_type().size(),
+        )
+        .size_bytes();
+        let Some(addr) = header.as_slice().get(addr_start..addr_start + addr_len) else {
+            return false;
+        };
+        let message = self.payload();
+
+        ChecksumDigest::new()
+            .add_slice(addr)
+            .add_u32(message.len() as u32)
+            .add_u32(u8::from(ProtocolNumber::Scmp) as u32)
+            .add_slice(message)
+            .checksum()
+            == 0
+    }
 }
 impl<'a> TryFrom<&'a ScionRawPacketView> for &'a ScionScmpPacketView {
     type Error = ViewConversionError;
